@@ -202,7 +202,7 @@ def describe(tier):
             'quick': '2 cells, 3 control points / categories in symbolic (any) order (CurveZScore: 2), every Direction and IgnoreZeros value, thresholds given or defaulted; monotonicity on 2 cells; inverse and variant-vs-Normalize relations on 2 cells',
             'thorough': '2-3 cells with 2-3 control points, 2 cells with 4 (CurveZScore: 2 cells, 2-3 points), MeanToMid on 4 cells, masked and nomask inputs, int64, uint64 and float64 data; monotonicity on 3 cells (z-score commands: 2)',
         },
-        'outside': ['IEEE-754 rounding', 'default z-score thresholds of NormalizeZScore (documentation and code disagree; explicit thresholds only)',
+        'outside': ['IEEE-754 rounding except through the rounding=rel search jobs (a fixed alternating pattern of relative errors 2^-50 per array operation: finds non-cancelling errors, proves nothing about doubles)', 'unsigned data above 2^20, with data-derived thresholds or 4 control points', 'float32 / 8-16-32-bit integer element types', 'default z-score thresholds of NormalizeZScore (documentation and code disagree; explicit thresholds only)',
                     'NormalizeZScore with StartVal >= EndVal', 'arrays with fewer than two distinct non-missing values'],
         'assumptions': D.STUBS + ['A-pre: >=2 distinct non-missing values for statistic-driven commands; distinct z-scores; true != false z-score threshold',
                                   'sqrt (std) is a fresh value r with r>=0 and r*r==variance, on both the implementation and the reference side'],
